@@ -9,6 +9,7 @@ from .. import AnalysisError
 from .. import terms as T
 from ..cfg import CFG, calls_in
 from ..evalr import Evaluator, Frame, State
+from ..model import walk_no_nested
 from ..mutants import M
 from ..spec import spec
 from .common import SELF, fold, loc_of, self_attr
@@ -91,6 +92,27 @@ def run(ctx, shared=True):
         from . import c20 as _c20
         _reuse(ctx, _c20.run, ("C20.route",), "C06route", "routing rule shared with C20: the schedule options (adaptive, n_steps, min_step, max_n_steps) reach sample() only if the front end hands on "
                "exactly the caller's keyword arguments minus the constructor's -- a selection by value (truthiness) drops adaptive=False and the run follows another schedule")
+    # ---- nothing executed by the loop can fail for one array namespace only.  Frozen API fact: torch tensors reject negative slice steps (`t[::-1]` raises
+    #      ValueError), NumPy and JAX accept them -- a reversal by slicing in code the loop reaches (diagnostics included: an f-string argument is evaluated
+    #      whatever the log level) ends a torch run in the middle of its schedule
+    neg = []
+    n_sl = 0
+    for f_ in repo.all_functions():
+        mod_ = f_.ident.split(":")[0]
+        if not (mod_.startswith("aspire.samplers") or mod_ in ("aspire.utils", "aspire.samples")) or f_.name.startswith("plot"):
+            continue
+        for n_ in walk_no_nested(f_.node):
+            if isinstance(n_, ast.Slice) and n_.step is not None:
+                n_sl += 1
+                st_ = n_.step
+                negative = (isinstance(st_, ast.UnaryOp) and isinstance(st_.op, ast.USub)) or (isinstance(st_, ast.Constant) and isinstance(st_.value, (int, float)) and st_.value < 0)
+                if negative:
+                    neg.append((f_, n_))
+    ctx.count("strided_slices_in_code_the_loop_can_reach", n_sl)
+    ctx.decide(not neg, "C06.opts", "package", loc_of(neg[0][0], neg[0][1]) if neg else "src/aspire",
+               "no array is reversed with a negative slice step in the samplers, the sample classes or the utilities",
+               (f"{neg[0][0].ident} slices with a negative step: torch tensors reject that (ValueError: step must be greater than zero), so on the torch back end the call raises -- if it is "
+                "reached from the SMC loop (a diagnostic for a low-efficiency step, say) the run ends there instead of reaching temperature 1 or its step cap") if neg else "", disc="negative-step")
     smc = repo.cls(SMC)
     db = smc.resolve("determine_beta")
     sample = smc.methods.get("sample")
@@ -468,6 +490,9 @@ MUTANTS += [
     M("tolerance option not forwarded", _B, "min_step,\n                    beta_tolerance=beta_tolerance,\n                )", "min_step,\n                )", "C06.opts"),
     M("rescale by the step actually taken, guard on the proposal", _B, "if self.adaptive_min_step and beta_star < 1.0:\n                min_step = min_step * (1 - beta_prev) / (1 - beta_star)\n            beta = max(beta_star, beta_prev + min_step)\n            beta = min(beta, 1.0)",
       "beta = min(max(beta_star, beta_prev + min_step), 1.0)\n            if self.adaptive_min_step and beta_star < 1.0:\n                min_step = min_step * (1 - beta_prev) / (1 - beta)", "C06.guard"),
+]
+MUTANTS += [
+    M("low-efficiency diagnostic reverses the sorted weights by slicing", _B, "if eff < 0.1:\n                    logger.warning(", "if eff < 0.1:\n                    _top = self.xp.sort(samples.log_weights(beta))[::-1][:3]\n                    logger.warning(", "C06.opts"),
 ]
 NEUTRALS = [
     __import__("aspire_sa.rules.smcloop", fromlist=["HELPER_NEUTRAL"]).HELPER_NEUTRAL,
